@@ -135,6 +135,50 @@ def gen_literal(rng):
 
 # ---- check ------------------------------------------------------------------------------------------------------------
 
+def fixed_mode_pass(chk, runner, vmstep, tier):
+    """str while a fixed number of decimals is selected (unary toFixed n): integral values lose nothing to the fixed notation, so the text
+    must still compile back to an equal value, at every magnitude a single-precision number can have. Runs in worker processes of its
+    own because the mode is process-wide (recorded C20 finding): an item that died between switching the mode on and off must not meet
+    values with fractions."""
+    n = 600 if tier == 'quick' else 40000
+    items, meta = [], []
+    for i in range(n):
+        rng = core.rng('c06f', i)
+        digits = rng.randint(1, 6)
+        m = rng.randint(10 ** (digits - 1), 10 ** digits - 1)
+        e = rng.choice([0, 0, 1, 3, 6, 9, 12, 20, 25, 28, 29, 30, 31, 32, 33]) if rng.random() < 0.7 else rng.randint(0, 33)
+        if float('%de%d' % (m, e)) > 3.4e38:
+            e = 38 - digits
+        lit = '%s%de%d' % ('-' if rng.random() < 0.3 else '', m, e)
+        mode = rng.choice([0, 0, 1, 2, 3, 6, 10, 19, 20])
+        shape = rng.choice(['scalar', 'array', 'nested', 'code'])
+        v = {'scalar': lit, 'array': '[%s, 1, %s]' % (lit, lit), 'nested': '[[%s], [[%s, "s"]]]' % (lit, lit), 'code': '{%s}' % lit}[shape]
+        src = ('vh_v = %s; toFixed %d; vh_s = str vh_v; toFixed -1; vh_w = call compile vh_s; '
+               'diag_log str [vh_v isEqualTo vh_w, vh_w isEqualTo vh_v]; diag_log vh_s') % (v, mode)
+        if shape == 'code':
+            src = ('vh_v = %s; toFixed %d; vh_s = str vh_v; toFixed -1; vh_w = call compile vh_s; '
+                   'diag_log str [(call vh_v) isEqualTo (call vh_w), (assembly__ vh_v) isEqualTo (assembly__ vh_w)]; diag_log vh_s') % (v, mode)
+        items.append([{'op': 'run', 'vm': 0, 'src': src, 'reset_ts': True, 'nopp': True}])
+        meta.append((v, mode, shape, e))
+    results = core.run_items(runner, [vmstep], items, batch=60, base_cpu_ms=4000, item_cpu_ms=lambda it: 300)
+    for (v, mode, shape, e), r in zip(meta, results):
+        chk.evaluations += 1
+        chk.sig('fixed|%d|%s|e%d' % (mode, shape, e))
+        if isinstance(r, core.Death):
+            chk.death_is_violation(r, 'fixed-decimals case `%s` (toFixed %d)' % (v, mode), {'kind': 'fixed', 'input': v, 'mode': mode})
+            continue
+        st = r[0]
+        errs = core.error_logs(core.logs_of(st))
+        vals = core.diag_values(core.logs_of(st))
+        if errs or 'exc' in st or not vals:
+            chk.violation('fixed-roundtrip-error|' + shape, 'round trip of %s under toFixed %d raised: %s' % (v, mode, (errs[0][2] if errs else str(st.get('exc')))[:200]), {'value': v, 'mode': mode})
+        elif vals[0] != '[true,true]':
+            chk.violation('fixed-roundtrip|' + shape, 'with toFixed %d in force, call compile str v is not equal to v for the integral v = %s ; str v = %s' % (mode, v, (vals[1] if len(vals) > 1 else '?')[:200]),
+                          {'value': v, 'mode': mode, 'printed': vals[1] if len(vals) > 1 else None})
+        else:
+            chk.count('fixed_mode_round_tripped')
+
+
 def main(tier):
     chk = core.Check(PROP, 'exploration', tier)
     runner = core.Runner('asan')
@@ -192,6 +236,7 @@ def main(tier):
         items.append([{'op': 'parse', 'vm': 0, 'src': text}, {'op': 'pretty', 'vm': 0, 'src': text}])
         meta.append(('pretty', text, needs_parens))
     results = core.run_items(runner, [vmstep], items, batch=60, base_cpu_ms=4000, item_cpu_ms=lambda it: 300, counters=chk.counters)
+    fixed_mode_pass(chk, runner, vmstep, tier)
     # second pass for the pretty printer: parse its output
     pp_items = []
     pp_idx = []
